@@ -35,6 +35,22 @@ CPP_SNIPPETS = [
     "int sw%d(int x) { int r; switch (x) { case 1: r = 1; break; case 2: break; } if (x == 1 && x == 2) {} return r; }\n",
 ]
 
+# several entities at ONE location (declared by one macro expansion) and many declarations on one line:
+# containers ordered by (file, line, column) cannot tell them apart - where pointer order can leak
+GROUP_SNIPPETS = [
+    "#define TWO_PARAMS%d(a, b) int *a, int *b\nint tp%d(TWO_PARAMS%d(p%d, q%d)) { return *p%d + *q%d; }\n",
+    "#define THREE_PARAMS%d(a, b, c) const char *a, char *b, char *c\nint t3p%d(THREE_PARAMS%d(s%d, t%d, u%d)) { return *s%d + *t%d + *u%d; }\n",
+    "#define DECL3_%d(a, b, c, x) int *a = x; int *b = x; int *c = x\nint d3_%d(int *x%d) { DECL3_%d(la%d, lb%d, lc%d, x%d); return *la%d + *lb%d + *lc%d; }\n",
+    "#define FUNS%d(a, b, c) static int a(int *p) { return *p; } static int b(int *p) { return *p; } static int c(char *p) { return *p; }\nFUNS%d(fa%d, fb%d, fc%d)\nint usef%d(int *i, char *c) { return fa%d(i) + fb%d(i) + fc%d(c); }\n",
+    "int sl%d(int *x%d) { int *a%d = x%d, *b%d = x%d, *c%d = x%d, *d%d = x%d; int u1, u2, u3; return *a%d + *b%d + *c%d + *d%d + u1 + u2 + u3; }\n",
+    "#define UNUSED3_%d int ua%d; int ub%d; int uc%d\nvoid un%d(void) { UNUSED3_%d; }\n",
+]
+CPP_GROUP_SNIPPETS = [
+    "#define MEMBERS%d int ma; int mb; char *mc; int md\nclass M%d { public: M%d() {} MEMBERS%d; };\n",
+    "class SL%d { public: SL%d() {} int m1, m2, m3; char *p1, *p2; void f(int *a, int *b, int *c) { m1 = *a + *b + *c; } };\n",
+    "#define GETTERS%d(T) int ga() { return T; } int gb() { return T; } int gc() { return T; }\nstruct G%d { int v; GETTERS%d(v) };\n",
+]
+
 
 def gen_tree(rng, d):
     """a source tree under d/src with subdirectories; returns list of relative source paths"""
@@ -64,6 +80,19 @@ def gen_tree(rng, d):
         p = os.path.join(sub, "%s%d.cpp" % (rng.choice(["u", "k", "q", "aa"]), k))
         open(os.path.join(root, p), "w").write(body)
         files.append(p)
+    # files made of groups of entities at one location / on one line (C and C++)
+    for k in range(rng.randint(2, 3)):
+        sub = rng.choice(dirs)
+        os.makedirs(os.path.join(root, sub), exist_ok=True)
+        cpp = rng.random() < 0.5
+        body = ""
+        for j in range(rng.randint(3, 7)):
+            sn = rng.choice(GROUP_SNIPPETS + (CPP_GROUP_SNIPPETS if cpp else []))
+            u = 1000 + 100 * k + j
+            body += sn % tuple([u] * sn.count("%d"))
+        p = os.path.join(sub, "grp%d.%s" % (k, "cpp" if cpp else "c"))
+        open(os.path.join(root, p), "w").write(body)
+        files.append(p)
     # entries that must be skipped whatever their position in the enumeration
     open(os.path.join(root, "notes.txt"), "w").write("x\n")
     os.makedirs(os.path.join(root, "empty"), exist_ok=True)
@@ -77,6 +106,10 @@ def environments(rng, d):
         ("setarch-R", ["setarch", os.uname().machine, "-R"], {}, d),
         ("malloc-perturb", [], {"MALLOC_PERTURB_": str(rng.randint(1, 255)), "MALLOC_ARENA_MAX": "1", "MALLOC_TOP_PAD_": str(rng.randint(0, 1 << 16))}, d),
         ("malloc-mmap", [], {"MALLOC_MMAP_THRESHOLD_": "64", "GLIBC_TUNABLES": "glibc.malloc.tcache_count=0"}, d),
+        ("tcache0", [], {"GLIBC_TUNABLES": "glibc.malloc.tcache_count=0"}, d),
+        ("mmap-small", [], {"GLIBC_TUNABLES": "glibc.malloc.mmap_threshold=%d:glibc.malloc.mmap_max=1000000" % rng.choice([32, 128, 1024])}, d),
+        ("arena1-toppad", [], {"GLIBC_TUNABLES": "glibc.malloc.arena_max=1:glibc.malloc.tcache_count=%d:glibc.malloc.mxfast=0" % rng.choice([0, 1, 3]),
+                               "MALLOC_TOP_PAD_": str(rng.randint(1, 1 << 20))}, d),
         ("other-cwd-env", [], {"VERIF_PAD": big, "LANG": "C", "TZ": "UTC-7", "COLUMNS": "13"}, None),
         ("dirseed-a", [], {"VERIF_DIRSEED": str(rng.randint(1, 1 << 30))}, d),
         ("dirseed-b", ["setarch", os.uname().machine, "-R"], {"VERIF_DIRSEED": str(rng.randint(1, 1 << 30)), "MALLOC_PERTURB_": "77"}, d),
@@ -141,6 +174,23 @@ def normalize_vars(data):
     return re.sub(rb'(  <variables>\n)(.*?)(\n  </variables>)', fix, data, flags=re.S)
 
 
+K_CONTORDER = "dump-containers-in-pointer-order"
+
+
+def normalize_containers(data):
+    """order the <container> elements of the <containers> section by their content with ids blanked"""
+    universe = set(m.group(1) for m in re.finditer(rb'\bid="([0-9a-f]{6,16})"', data))
+    blank = lambda l: ID_RE.sub(lambda m: b'="#"' if m.group(1) in universe else m.group(0), l)
+
+    def fix(m):
+        elems = re.findall(rb'    <container .*?</container>\n|    <container [^\n]*/>\n', m.group(2), flags=re.S)
+        if b"".join(elems) != m.group(2):
+            return m.group(0)
+        elems.sort(key=blank)
+        return m.group(1) + b"".join(elems) + m.group(3)
+    return re.sub(rb'(  <containers>\n)(.*?)(  </containers>)', fix, data, flags=re.S)
+
+
 def first_diff(a, b):
     la, lb = a.split(b"\n"), b.split(b"\n")
     for i, (x, y) in enumerate(zip(la, lb)):
@@ -157,13 +207,13 @@ def check(run, replay):
         "extraction: Require Extraction + ExtrOcamlBasic only (FMapPositive from the standard library for the id table); ocaml/driver.ml",
         "tools/props/c29.py: splitting a dump file into text chunks and ids (an id is any attribute value equal to the value of some id= attribute), environment set-up, byte/multiset comparison of outputs",
         "C31's model of FileLister (Path/Defs.v) and C15's model of Executor::hasToLog (Par/Defs.v) are reused; their ties to the code are C31's and C15's checks",
-        "not modelled: the analysis passes; their dependence on pointer values / hash seeds / allocation patterns is only observed by the differential runs (>= 5 environments per input)",
+        "not modelled: the analysis passes; their dependence on pointer values / hash seeds / allocation patterns is only observed by the differential runs (>= 10 environments per input)",
     ]
     run.assumptions += ["g++ compiles /repo faithfully", "hook 51e8900 (VERIF_DIRSEED) only permutes the order in which FileLister::addFiles2 processes readdir's entries",
                         "setarch -R disables address-space randomisation; the default runs have it enabled (kernel.randomize_va_space=2)"]
     run.extra["rule"] = ("generated source trees (2-4 C files with planted findings and inline suppressions from the C17 generator + 2-6 C++ files of snippets "
                          "with classes, templates, containers, leaks, in 1-5 nested directories plus entries to be skipped); each tree is analysed as a directory "
-                         "under 6 environments x {text -j1, xml -j1, dump -j1, text -j2}. non-trivial = output has at least one finding / dump has ids; distinct (input, mode).")
+                         "under 10 environments x {text -j1, xml -j1, dump -j1, text -j2}. non-trivial = output has at least one finding / dump has ids; distinct (input, mode).")
 
     vlib.ensure_repo_build()
     ok = run.prove(extra_targets=["theories/Det/Run.vo"])
@@ -202,12 +252,13 @@ def check(run, replay):
             files = gen_tree(rng, d)
             shutil.copytree(os.path.join(d, "src"), os.path.join(d2, "src"))
             envs = [(n, p, e, c or d2) for n, p, e, c in environments(rng, d)]
-            enable = rng.choice(["all", "warning,style,performance,portability,information", "warning"])
+            enable = "all"
+            inc = ["--inconclusive"]
             modes = [
-                ("text-j1", ["-q", "--inline-suppr", "--enable=" + enable, "--template=" + TEMPLATE, "src"]),
-                ("xml-j1", ["-q", "--inline-suppr", "--enable=" + enable, "--xml", "src"]),
-                ("text-j2", ["-q", "-j2", "--inline-suppr", "--enable=" + enable.replace("all", "warning,style,performance,portability,information"),
-                             "--template=" + TEMPLATE, "src"]),
+                ("text-j1", ["-q", "--inline-suppr", "--enable=" + enable, "--template=" + TEMPLATE] + inc + ["src"]),
+                ("xml-j1", ["-q", "--inline-suppr", "--enable=" + enable, "--xml"] + inc + ["src"]),
+                ("text-j2", ["-q", "-j2", "--inline-suppr", "--enable=warning,style,performance,portability,information",
+                             "--template=" + TEMPLATE] + inc + ["src"]),
                 ("dump-j1", ["-q", "--dump", "src"]),
             ]
             for mode, args in modes:
@@ -280,6 +331,19 @@ def check(run, replay):
                                                   {"file": f, "env_a": ref[0], "env_b": envspec[0], "env_b_settings": envspec[2],
                                                    "source": open(os.path.join(d, "src", f)).read(),
                                                    "how": "cppcheck -q --dump f  vs  MALLOC_MMAP_THRESHOLD_=64 cppcheck -q --dump f (no hook needed): the <variables> sections list the same variables in a different order"})
+                                    continue
+                                # known finding: only the order of the <container> elements differs
+                                ja, _ = dump_items(normalize_containers(A))
+                                jb, _ = dump_items(normalize_containers(B))
+                                _, mo3, _ = vlib.run_lines([model], [vlib.enc_case([b"canoneq"] + ja + [b"|"] + jb)])
+                                if vlib.dec_line(mo3[0]) == [b"1"]:
+                                    run.extra["containerorder_cases"] = run.extra.get("containerorder_cases", 0) + 1
+                                    run.violation(K_CONTORDER, "the <container> elements of the dump's <containers> section come in pointer order (std::set<const Library::Container*>)",
+                                                  {"file": f, "env_a": ref[0], "env_b": envspec[0], "env_b_settings": envspec[2],
+                                                   "source": open(os.path.join(d, "src", f)).read(),
+                                                   "how": "a file using two library containers (std::vector and std::map): cppcheck -q --dump f.cpp  vs  "
+                                                          "GLIBC_TUNABLES=glibc.malloc.mmap_threshold=32:glibc.malloc.mmap_max=1000000 cppcheck -q --dump f.cpp: "
+                                                          "the <containers> sections list the same containers in a different order"})
                                     continue
                                 idx = int(res[1]) if len(res) > 1 and res[1].isdigit() else -1
                                 run.violation("x:dump:%s" % vlib.hashlib.sha1(A + b"|" + B).hexdigest()[:10],
